@@ -132,6 +132,26 @@ func castBool(v string) (interface{}, error) {
 }
 
 func castInt(v string, t reflect.Type) (interface{}, error) {
+	switch t.Kind() {
+	case reflect.Uint, reflect.Uint8, reflect.Uint16, reflect.Uint32, reflect.Uint64:
+		// Unsigned kinds are parsed as unsigned: a negative value doesn't fit, it must not wrap around.
+		uintV, err := strconv.ParseUint(v, 0, t.Bits())
+		if err != nil {
+			return nil, fmt.Errorf("'%s' cast to %s failed: %w", v, t, ErrCantCastVariableToTargetType)
+		}
+		switch t.Kind() {
+		case reflect.Uint:
+			return uint(uintV), nil
+		case reflect.Uint8:
+			return uint8(uintV), nil
+		case reflect.Uint16:
+			return uint16(uintV), nil
+		case reflect.Uint32:
+			return uint32(uintV), nil
+		}
+		return uintV, nil
+	}
+
 	intV, err := strconv.ParseInt(v, 0, t.Bits())
 	if err != nil {
 		return nil, fmt.Errorf("'%s' cast to %s failed: %w", v, t, ErrCantCastVariableToTargetType)
@@ -148,16 +168,6 @@ func castInt(v string, t reflect.Type) (interface{}, error) {
 		return int32(intV), nil
 	case reflect.Int64:
 		return int64(intV), nil
-	case reflect.Uint:
-		return uint(intV), nil
-	case reflect.Uint8:
-		return uint8(intV), nil
-	case reflect.Uint16:
-		return uint16(intV), nil
-	case reflect.Uint32:
-		return uint32(intV), nil
-	case reflect.Uint64:
-		return uint64(intV), nil
 	}
 
 	return nil, ErrUnsupportedKind
